@@ -125,7 +125,8 @@ class _CenterManifoldDynamicsService(_DynamicsServiceBase):
         cache_key = self.make_key("hamiltonian", degree)
 
         def _factory():
-            return self.pipeline_for_degree(degree).get_hamiltonian("center_manifold_real")
+            # do not move the object's own degree: that would happen on a cache miss only
+            return self._ham_pipeline.get(self.point, degree).get_hamiltonian("center_manifold_real")
         
         return self.get_or_create(cache_key, _factory)
 
